@@ -19,7 +19,7 @@ ASSUMPTIONS = ["thread interleavings are sampled (yield injection + repetition),
                "the strict peer is the responder double of vf/noisepeer.py (dissononce cipher states, counters only move forward)",
                "besides the probe-level runs, 24 (quick) / 960 (thorough) runs, with thread switches injected inside the dispatchers, go through the library's real socket and asyncore dispatchers over loopback TCP",
                "senders start after the handshake completed, as applications do (the handshake thread's own writes are covered by C04)"]
-REQUIRED = ["runs", "stanzas_sent", "stanzas_decrypted", "interleaved_runs", "yields_injected", "ping_thread_runs", "entry:top",
+REQUIRED = ["real_backlog_cases", "real_backlog_ok", "real_backlog:local-disconnect", "real_backlog:peer-reset", "runs", "stanzas_sent", "stanzas_decrypted", "interleaved_runs", "yields_injected", "ping_thread_runs", "entry:top",
             "entry:sendIq", "entry:below-group", "early_sender_runs", "refused_during_handshake", "stalled_write_runs", "stalled_write_ok", "s2c_flood_runs", "s2c_flood_frames", "real_runs", "real_ok", "wire_bytes_equal", "real:socket", "real:asyncore"]
 TIMEOUT = {"quick": 400, "thorough": 3600}
 
@@ -517,6 +517,123 @@ def real_run(acc, seed, tag, dispatcher_name, nthreads, per_thread):
             acc.count("real_yields", yi.yields)
 
 
+def real_backlog_reconnect_case(acc, seed, tag, dispatcher_name):
+    """Real dispatcher: the peer stops reading, senders pile up output, the connection is dropped with output still pending; then
+    the same stack connects again. The second connection must carry exactly what is written on it: login completes, the stanzas
+    sent on it arrive exactly once, and the socket bytes equal the bytes handed to the network layer since the reconnect."""
+    from vf import realnet
+    from yowsup.structs import ProtocolTreeNode
+    from yowsup.layers.network import YowNetworkLayer
+    from yowsup.layers.auth import YowAuthenticationProtocolLayer
+    r = gen.rng(seed, ID, tag)
+    disp = YowNetworkLayer.DISPATCHER_SOCKET if dispatcher_name == "socket" else YowNetworkLayer.DISPATCHER_ASYNCORE
+    srv = realnet.LoopServer(slow_reader=True)
+    srv.start()
+    c = realnet.RealClient("c11back_%s" % tag.replace("/", "_"), srv.port, disp)
+    w = {"tag": tag, "dispatcher": dispatcher_name, "kind": "backlog-reconnect"}
+    A, D = YowAuthenticationProtocolLayer.EVENT_AUTHED, YowNetworkLayer.EVENT_STATE_DISCONNECTED
+    acc.count("real_backlog_cases")
+    try:
+        c.start_loop()
+        c.connect_async()
+        if not c.wait(lambda: c.events(A) >= 1, 20):
+            acc.inconc("%s: login over loopback did not complete" % tag)
+            return
+        conn = srv.conns[0]
+        conn.stalled = True
+        big = r.choice([70000, 200000, 400000])
+        nbig = r.choice([4, 8])
+
+        def pile(name, rr):
+            for i in range(nbig):
+                try:
+                    c.app.toLower(BlobIq(ProtocolTreeNode("iq", {"id": "%s-%d" % (name, i), "type": "set", "xmlns": "w"}, [ProtocolTreeNode("blob", {}, None, gen.blob(rr, 64) * (big // 64))])))
+                except Exception:  # noqa  (the connection is dropped under these senders: errors are theirs to get)
+                    return
+        ths = [threading.Thread(target=pile, args=("p%d" % k, random.Random(r.randrange(1 << 30))), name="verif-pile-%d" % k) for k in range(2)]
+        for t in ths:
+            t.daemon = True
+            t.start()
+        time.sleep(r.choice([0.05, 0.2, 0.4]))
+        how = r.choice(["local-disconnect", "peer-reset"])
+        w["how"] = how
+        acc.count("real_backlog:" + how)
+        if how == "local-disconnect":
+            c.app.disconnect()
+            time.sleep(0.05)
+        conn.kill()
+        for t in ths:
+            t.join(20)
+        if any(t.is_alive() for t in ths):
+            from vf import probes
+            stt = probes.thread_states(ths)
+            acc.violation("real-backlog:sender-stuck:%s" % dispatcher_name, "a sender is still inside its send 20 s after the connection was dropped: %s" % {n: [list(f[:3]) for f in s_[:5]] for n, s_ in stt.items()}, w)
+            return
+        if not c.wait(lambda: c.probe_top.event_names().count(D) >= 1, 10):
+            acc.violation("real-backlog:no-disconnected:%s" % dispatcher_name, "a connection dropped with output pending was never announced as down", w)
+            return
+        t0 = time.time()
+        while time.time() - t0 < 5 and any(t.is_alive() for t in c.net_threads):
+            time.sleep(0.01)
+        time.sleep(0.15)
+        n_sent = len(c.probe_low.sent)
+        n_conns = len(srv.conns)
+        c.connect_async()
+        ok = c.wait(lambda: c.events(A) >= 2, 15)
+        conn2 = srv.conns[n_conns] if len(srv.conns) > n_conns else None
+
+        def wire_diff():
+            want = b"".join(bytes(x) for x in list(c.probe_low.sent)[n_sent:])
+            got = bytes(conn2.raw) if conn2 else b""
+            if want == got:
+                return None
+            n = min(len(want), len(got))
+            i = next((k for k in range(n) if want[k] != got[k]), n)
+            return "handed to the network layer since the reconnect %d bytes, the new socket carried %d; first difference at offset %d" % (len(want), len(got), i)
+        if not ok:
+            acc.violation("real-backlog:no-relogin:%s" % dispatcher_name, "after a connection was dropped with output pending, the next connection of the same stack does not log in "
+                          "(server side %s; %s)" % ([x.srv.state for x in srv.conns], wire_diff()), w)
+            return
+        ids = ["n%d-%d" % (k, i) for k in range(2) for i in range(8)]
+
+        def small(k):
+            rr = random.Random(k)
+            for i in range(8):
+                c.app.toLower(BlobIq(payload_node(rr, "n%d-%d" % (k, i))))
+        ths = [threading.Thread(target=small, args=(k,), name="verif-small-%d" % k) for k in range(2)]
+        for t in ths:
+            t.daemon = True
+            t.start()
+        for t in ths:
+            t.join(20)
+        c.wait(lambda: conn2.srv.state == "error" or all(i in set(t[1].get("id") for t in conn2.stanzas) for i in ids), 15)
+        if conn2.srv.state == "error":
+            acc.violation("real-backlog:stream-corrupt:%s" % dispatcher_name, "the stream of the second connection cannot be parsed/decrypted: %s; %s" % (conn2.srv.errors, wire_diff()), w)
+            return
+        got = [t[1].get("id") for t in conn2.stanzas]
+        bad_ = [i for i in ids if got.count(i) != 1] + [g for g in got if str(g).startswith("p")]
+        if bad_:
+            acc.violation("real-backlog:exactly-once:%s" % dispatcher_name, "on the second connection stanzas arrived not exactly once, or stanzas of the dropped connection arrived: %s" % bad_[:5], w)
+            return
+        d_ = wire_diff()
+        if d_:
+            time.sleep(0.3)
+            d_ = wire_diff()
+        if d_:
+            acc.violation("real-backlog:wire-differs:%s" % dispatcher_name, "second connection: %s" % d_, w)
+            return
+        acc.count("real_backlog_ok")
+        acc.case(["real-backlog", tag], nontrivial=True)
+    finally:
+        try:
+            c.app.disconnect()
+        except Exception:
+            pass
+        c.stop_loop()
+        time.sleep(0.05)
+        srv.stop()
+
+
 def make_desc(r):
     k = r.choice([2, 3, 4])
     entries = [r.choice(["top", "sendIq", "below-group"]) for _ in range(k)]
@@ -533,6 +650,9 @@ def shards(tier, seed, nworkers):
             specs.append({"kind": "real", "dispatcher": dname, "rep": k, "n": 12 if q else 60})
     for k in range(1 if q else 8):
         specs.append({"kind": "stalled", "rep": k})
+    for dname in ("socket", "asyncore"):
+        for k in range(1 if q else 6):
+            specs.append({"kind": "real-backlog", "dispatcher": dname, "rep": k, "n": 3 if q else 10})
     return specs
 
 
@@ -542,6 +662,11 @@ def run(spec, acc):
     if spec["kind"] == "stalled":
         stalled_write_run(acc, spec["seed"], "stalled/%d" % spec["rep"])
         acc.sample({"stalled_write": "sender stuck 6.5 s between header and payload while the keep-alive comes due"})
+        return
+    if spec["kind"] == "real-backlog":
+        for i in range(spec["n"]):
+            real_backlog_reconnect_case(acc, spec["seed"], "backlog/%s/%d/%d" % (spec["dispatcher"], spec["rep"], i), spec["dispatcher"])
+        acc.sample({"real_backlog_reconnect": "peer stops reading, output piles up, connection dropped, same stack reconnects", "dispatcher": spec["dispatcher"]})
         return
     if spec["kind"] == "real":
         for i in range(spec["n"]):
